@@ -11,6 +11,15 @@ INTEGER_MIN_VALUE = -(2**31)
 INTEGER_MAX_VALUE = 2**31 - 1
 
 
+def _describe(value: Any) -> str:
+    """Text of a rejected value for the error message (the value can be anything,
+    e.g. an int too long to print or an object that cannot be formatted)."""
+    try:
+        return f"{value}"
+    except Exception:
+        return f"<{type(value).__name__}>"
+
+
 def integer_validator(
     instance: Any,
     attribute: "attrs.Attribute[int]",
@@ -22,7 +31,7 @@ def integer_validator(
     ):
         name = attribute.name if hasattr(attribute, "name") else str(attribute)
         raise ValueError(
-            f"{instance.__class__.__qualname__}.{name} should be in range [{INTEGER_MIN_VALUE}:{INTEGER_MAX_VALUE}], but was {value}."
+            f"{instance.__class__.__qualname__}.{name} should be in range [{INTEGER_MIN_VALUE}:{INTEGER_MAX_VALUE}], but was {_describe(value)}."
         )
     return True
 
@@ -42,6 +51,6 @@ def uinteger_validator(
     ):
         name = attribute.name if hasattr(attribute, "name") else str(attribute)
         raise ValueError(
-            f"{instance.__class__.__qualname__}.{name} should be in range [{UINTEGER_MIN_VALUE}:{UINTEGER_MAX_VALUE}], but was {value}."
+            f"{instance.__class__.__qualname__}.{name} should be in range [{UINTEGER_MIN_VALUE}:{UINTEGER_MAX_VALUE}], but was {_describe(value)}."
         )
     return True
